@@ -25,6 +25,9 @@ fn durs_for(x: NaiveDateTime, rng: &mut Rng, extra: usize) -> Vec<i128> {
     for j in [1i128, 2, 3] { for r in [0i128, 1, -1, 365, -70_000_000, 70_000_000] {
         b.push(((j << 32) + r) * 86_400 * NS); b.push(((j << 31) + r) * 86_400 * NS); b.push(((j << 32) + r) * 86_400 * NS + 1);
     } }
+    // durations whose whole seconds ADDED TO THE SECOND OF THE DAY reach 2^31 or 2^32 (a 32-bit intermediate sum)
+    { use chrono::Timelike; let sod = x.time().num_seconds_from_midnight() as i128;
+      for j in [31u32, 32] { for r in [-1i128, 0, 1, 3_600, 40_000] { b.push(((1i128 << j) - sod + r) * NS); b.push(((1i128 << j) - sod + r) * NS + 500_000_000); } } }
     for _ in 0..extra { b.push(match rng.below(3) { 0 => (rng.next() as i128) % DUR_LIM, 1 => rng.loguniform(60).abs() as i128, _ => rng.range(0, 400 * 366) as i128 * 86_400 * NS + rng.range(0, 86_399_999) as i128 * 1000 }); }
     let mut v = Vec::new();
     for x in b { if x <= DUR_LIM { v.push(x); v.push(-x); } }
@@ -125,6 +128,29 @@ pub fn run(ctx: &Ctx) -> Value {
             tw.emit(ev("dtd.add_days", json!({"dt": ndt(x), "k": big(k as i128)}), || json!({"r": ondt(x.checked_add_days(Days::new(k)))})));
             tw.emit(ev("dtd.sub_days", json!({"dt": ndt(x), "k": big(k as i128)}), || json!({"r": ondt(x.checked_sub_days(Days::new(k)))})));
         }
+    }
+    // steps across year ends, the leap day and the century seams in EVERY class of year: one year per (weekday of 1 January, leap) class
+    // (2001..2028), the years around every kind of century (divisible by 400 or not, both sides of year 0) and years far out
+    {
+        let mut years: Vec<i32> = (2001..=2028).collect();
+        for c in [-4, -3, -2, -1, 0, 1, 2, 3, 4, 15, 16, 17, 18, 19, 20, 21, 22, 23, 24] { years.extend([100 * c - 1, 100 * c, 100 * c + 1]); }
+        years.extend([-262_000, -261_999, 261_999, 262_000, 9_999, 10_000]);
+        for &y in &years { for (m, dd) in [(1u32, 1u32), (1, 2), (2, 28), (3, 1), (12, 30), (12, 31)] { for k in [1u64, 2, 31, 59, 60, 365, 366] {
+            if ctx.quick() && rng.chance(1, 2) { continue; }
+            let n = days_from_civil(y, m, dd);
+            let d = mk_date(n);
+            tw.emit(ev("date.add_days", json!({"n": n, "k": big(k as i128)}), || json!({"r": odn(d.checked_add_days(Days::new(k)))})));
+            tw.emit(ev("date.sub_days", json!({"n": n, "k": big(k as i128)}), || json!({"r": odn(d.checked_sub_days(Days::new(k)))})));
+            if k <= 2 || k >= 365 {
+                let td = mk_dur(k as i128 * 86_400 * NS).unwrap();
+                let x = d.and_hms_nano_opt(12, 0, 0, 5).unwrap();
+                tw.emit(ev("dt.add", json!({"dt": ndt(x), "d": dur(td)}), || json!({"r": ondt(x.checked_add_signed(td))})));
+                tw.emit(ev("dt.sub", json!({"dt": ndt(x), "d": dur(td)}), || json!({"r": ondt(x.checked_sub_signed(td))})));
+                tw.emit(ev("date.add_dur", json!({"n": n, "d": dur(td)}), || json!({"r": odn(d.checked_add_signed(td))})));
+                tw.emit(ev("date.sub_dur", json!({"n": n, "d": dur(td)}), || json!({"r": odn(d.checked_sub_signed(td))})));
+            }
+            n_date += 2;
+        } } }
     }
     // iterator episodes
     let episodes = ctx.t(300, 20_000);
